@@ -55,6 +55,10 @@ type childSpec struct {
 	Events    string `json:"events"`
 	LogDir    string `json:"log_dir"`
 	FullBound bool   `json:"full_bound"`
+	// ResumeInProcess: after a graceful stop or an error has ended the first Plot() call, Plot() is called again on the
+	// SAME object (what the keeper does on Stop, or a failed plot, followed by Plot) instead of leaving the resume to the
+	// next process
+	ResumeInProcess bool `json:"resume_in_process,omitempty"`
 }
 
 type event struct {
@@ -283,11 +287,23 @@ func childMain(args []string) {
 		fin.Err = perr.Error()
 	}
 	emit(&fin)
+	if sp.ResumeInProcess && !fin.Completed && (si || perr != nil) {
+		// same object, no reopen: whatever the first call left in memory is what the second one starts from
+		perr2 := <-mdb.Plot()
+		mu.Lock()
+		fin2 := event{Seq: seq + 2, Ev: "plot-returned", Start: -1, End: -1, CkA: readCkFile(fa), CkB: readCkFile(fb), StopIssued: false,
+			Completed: perr2 == nil && removed}
+		mu.Unlock()
+		if perr2 != nil {
+			fin2.Err = perr2.Error()
+		}
+		emit(&fin2)
+	}
 	verifhook.Reset()
 	if !noop {
-		// Plot() on an already plotted space returns nil at once but leaves the "plotting" flag set with a nil
-		// stop channel, so Close() -> StopPlot() would panic (close of nil channel, massdb.v1.go:88). That is a
-		// life-cycle defect outside this property; the process simply exits here.
+		// (Plot() on an already plotted space used to leave the "plotting" flag set with a nil stop channel, so that
+		// Close() -> StopPlot() panicked; repaired by fix 39ff690, see DESIGN 8.3. The guard stays: a no-op Plot has
+		// nothing to close down.)
 		mdb.Close()
 	}
 	os.Exit(0)
